@@ -182,7 +182,7 @@ Proof.
       rewrite (IH rest f P2 E); [rewrite app_length; reflexivity|].
       rewrite app_length in L. lia.
     + destruct (utf8_encode r); [cbn in Lr; lia|discriminate].
-    + apply C08_scalar. exact S.
+    + apply decode_encode_scalar. exact S.
 Qed.
 
 (* ---------------------------------------------------------------- detect_tail *)
@@ -265,13 +265,15 @@ Qed.
 
 (* ---------------------------------------------------------------- EAltRune *)
 
-Lemma keys_second_byte :
-  forallb (fun e => match fst e with
-                    | [] => false
-                    | [x] => negb (x =? 27)
-                    | x :: y :: tl => negb (x =? 27) ||
-                        ((y <? 128) && match tl with [] => (y <=? 32) || (y =? 127) | _ => true end)
-                    end) ext_sequences = true.
+Definition second_byte_ok (k : bytes) : bool :=
+  match k with
+  | [] => false
+  | [x] => negb (x =? 27)
+  | x :: y :: tl => negb (x =? 27) ||
+      ((y <? 128) && match tl with [] => (y <=? 32) || (y =? 127) | _ => true end)
+  end.
+
+Lemma keys_second_byte : forallb (fun e => second_byte_ok (fst e)) ext_sequences = true.
 Proof. vm_compute. reflexivity. Qed.
 
 Lemma step_EAltRune r rest : valid_event (EAltRune r) = true -> clean (EAltRune r) rest = true ->
@@ -306,14 +308,15 @@ Proof.
       repeat split; try assumption.
       unfold unknown_csi. rewrite Hc. rewrite andb_false_r. reflexivity. }
   destruct ST as (H1 & H2 & H3 & H4).
-  rewrite (dom_stages _ ltac:(discriminate) H1 H2 H3).
+  assert (Hne : (27 :: utf8_encode r) ++ rest <> []) by discriminate.
+  rewrite (dom_stages _ Hne H1 H2 H3).
   assert (DS : detect_sequence ((27 :: utf8_encode r) ++ rest) = None).
   { unfold detect_sequence. rewrite detect_from_none; [rewrite H4; reflexivity|].
     intros k K.
     destruct (is_prefix k ((27 :: utf8_encode r) ++ rest)) eqn:Pk; [exfalso|reflexivity].
-    pose proof (keys_forall _ keys_second_byte k K) as X. cbv beta in X.
-    assert (Lk : (length k <= length (27 :: utf8_encode r))%nat).
-    { destruct (Nat.le_gt_cases (length k) (length (27 :: utf8_encode r))) as [Y|Y]; [exact Y|].
+    pose proof (keys_forall second_byte_ok keys_second_byte k K) as X. unfold second_byte_ok in X.
+    assert (Lk : (length k <= length (27%N :: utf8_encode r))%nat).
+    { destruct (Nat.le_gt_cases (length k) (length (27%N :: utf8_encode r))) as [Y|Y]; [exact Y|].
       rewrite (no_longer_spec _ rest k NL K Y) in Pk. discriminate. }
     rewrite E in Pk, Lk. cbn [app] in Pk.
     destruct k as [|x [|y tl]]; cbv beta iota in X; [discriminate X| |].
@@ -332,5 +335,5 @@ Proof.
   - cbn [length]. rewrite (rune_run_step _ true (c :: t ++ rest) r (length (utf8_encode r))).
     + rewrite (stops_run_printable r V). reflexivity.
     + discriminate.
-    + change (c :: t ++ rest) with ((c :: t) ++ rest). rewrite <- E. apply C08_scalar. exact Sc.
+    + change (c :: t ++ rest) with ((c :: t) ++ rest). rewrite <- E. apply decode_encode_scalar. exact Sc.
 Qed.
